@@ -263,12 +263,12 @@ package machine
 //@   ensures err == nil && typ == TypeString ==> is(v, String)
 
 //@ func (a *MonetaryInt) Uint64() (r uint64)
-//@   property W01
+//@   property C22 C23 C27
 //@   requires a != nil
 //@   ensures (0 <= val(a) && val(a) < 18446744073709551616) ==> r == val(a)
 
 //@ func (a *MonetaryInt) ToBigInt() (r *big.Int)
-//@   property W01
+//@   property C22 C23 C27
 //@   ensures r == a
 
 //@ assumed func NewAllotment(portions []Portion) (r *Allotment, err error)
